@@ -8,6 +8,7 @@ import (
 	"os"
 	"os/exec"
 	"path/filepath"
+	"sort"
 	"strings"
 	"time"
 
@@ -41,7 +42,16 @@ type IOCase struct {
 	OpenFault       string `json:"open_fault,omitempty"` // notexist | perm | isdir
 	StdinNoise      string `json:"stdin_noise,omitempty"`
 	StdoutFailAfter int    `json:"stdout_fail_after"` // -1: stdout never fails
+	// Env: environment variables of the simulated process. Only names the program was
+	// seen to look up are ever set, and only to the two values every boolean parser reads
+	// as "off" (0, false): a plain invocation must behave as the property says under them.
+	Env map[string]string `json:"env,omitempty"`
 }
+
+// lastEnvAsked: variable names the last simulated jpgo run looked up.
+var lastEnvAsked []string
+
+var envOffValues = []string{"0", "false"}
 
 type ioRef struct {
 	exprValid, textValid, evalErr, panicked, serErr bool
@@ -151,6 +161,7 @@ func runJpgo(c *IOCase) (res ioResult) {
 		stdin = c.plan([]byte(c.Text))
 	}
 	w := simio.NewWorld(c.args(), stdin, files, c.StdoutFailAfter)
+	w.Env = c.Env
 	simio.W = w
 	shimos.Args = w.Args
 	shimflag.Reset()
@@ -175,6 +186,7 @@ func runJpgo(c *IOCase) (res ioResult) {
 	}()
 	res.stdout = w.Stdout.Buf.Bytes()
 	res.stderr = w.Stderr.Buf.Bytes()
+	lastEnvAsked = w.EnvAsked
 	return
 }
 
@@ -184,6 +196,7 @@ type ioStats struct {
 	bytes                                                                                                           uint64
 	ioEvents                                                                                                        uint64
 	faultIgnoredButCorrect                                                                                          int
+	envCases                                                                                                        int
 }
 
 var iostats ioStats
@@ -249,6 +262,10 @@ func runIOCase(c *IOCase) *RunReport {
 	}
 	if openFault {
 		faultKind = "open-fault:" + c.OpenFault
+	}
+	if len(c.Env) > 0 {
+		faultKind = "env/" + faultKind
+		iostats.envCases++
 	}
 	add := func(class, detail string) {
 		rep.Violations = append(rep.Violations, Violation{Prop: "C19", Class: class, Sig: faultKind, Detail: detail + " [" + c.describe() + "]"})
@@ -345,6 +362,16 @@ func (c *IOCase) describe() string {
 	if c.StdoutFailAfter >= 0 {
 		s += fmt.Sprintf(" stdout_fails_after=%d", c.StdoutFailAfter)
 	}
+	if len(c.Env) > 0 {
+		var ks []string
+		for k := range c.Env {
+			ks = append(ks, k)
+		}
+		sort.Strings(ks)
+		for _, k := range ks {
+			s += fmt.Sprintf(" env:%s=%s", k, c.Env[k])
+		}
+	}
 	return s
 }
 
@@ -366,7 +393,10 @@ var ioErrCombos = func() []string {
 	return out
 }()
 
-var ioOddResultExprs = []string{"avg(e)", "&nums", "[&nums]", "contains(nested, nested[0])", "`\"<a>&\\u2028\"`", "to_string(@)", "s", "z", "`[]`", "`{}`", "n", "t", "''", "o1.*", "keys(o1)", "@"}
+var ioOddResultExprs = []string{"avg(e)", "&nums", "[&nums]", "contains(nested, nested[0])", "`\"<a>&\\u2028\"`", "to_string(@)", "s", "z", "`[]`", "`{}`", "n", "t", "''", "o1.*", "keys(o1)", "@",
+	// a large serialisable part first, the unserialisable element last (and the reverse): output
+	// written piecewise must not leave a partial result behind when the run fails
+	"[nums, avg(e)]", "[objs, nums, avg(e)]", "[@, avg(e)]", "{a: @, z: avg(e)}", "[avg(e), nums]", "nums[*].[@, avg(`[]`)][]", "[nums, objs, &nums]", "[to_string(@), to_string(@), avg(e)]", "objs[*].[k, s, avg(`[]`)]", "[nums, nums, nums, nums, avg(`[]`)]"}
 
 func indentJSON(r *gen.Rng, text string) string {
 	var buf bytes.Buffer
@@ -697,9 +727,29 @@ func ioWorker(tier string, master uint64, from, to int, maxWall time.Duration, r
 		cases := plansFor(r, expr, text, full)
 		st.Runs++
 		var rd uint64
-		for ci := range cases {
+		for ci := 0; ci < len(cases); ci++ {
 			c := &cases[ci]
 			rep := runIOCase(c)
+			if ci == 0 && len(lastEnvAsked) > 0 && len(c.Env) == 0 {
+				// the program consults its environment: the same plain invocations with
+				// those variables set to values that read as "off"
+				names := append([]string{}, lastEnvAsked...)
+				for v := 0; v < 2; v++ {
+					e := cases[v%len(cases)]
+					e.ZeroReadAt = nil
+					e.Env = map[string]string{}
+					same := envOffValues[r.Intn(len(envOffValues))]
+					for _, n := range names {
+						if v == 0 {
+							e.Env[n] = same
+						} else {
+							e.Env[n] = envOffValues[r.Intn(len(envOffValues))]
+						}
+					}
+					cases = append(cases, e)
+				}
+				c = &cases[ci]
+			}
 			d := hashStr(c.describe())
 			rd = simrt.Mix(rd, d^uint64(len(rep.Violations)))
 			nontrivial := c.FailAfter >= 0 || c.OpenFault != "" || c.StdoutFailAfter >= 0 || len(c.ZeroReadAt) > 0 || c.EOFWithData
@@ -775,6 +825,7 @@ func ioWorker(tier string, master uint64, from, to int, maxWall time.Duration, r
 	st.Faults["open_fault_cases"] = uint64(s.openFault)
 	st.Faults["stdout_fault_cases"] = uint64(s.stdoutFault)
 	st.Faults["stdin_noise_while_file_given"] = uint64(s.noise)
+	st.Faults["environment_variables_set_to_off_values"] = uint64(s.envCases)
 	st.Probes["cases"] = uint64(s.cases)
 	st.Probes["fault_free_cases"] = uint64(s.faultFree)
 	st.Probes["hard_fault_cases"] = uint64(s.hardFault)
@@ -817,6 +868,7 @@ func crossCheck(bin string, c *IOCase, dir string) string {
 		args = c.argsFor(tmp)[1:]
 	}
 	cmd := exec.Command(bin, args...)
+	cmd.Env = c.envList()
 	var so, se bytes.Buffer
 	cmd.Stdout, cmd.Stderr = &so, &se
 	stdin, err := cmd.StdinPipe()
